@@ -21,7 +21,7 @@ from engine.flostep import START, RUN, STOP, ABORT
 
 PROPERTY = "C07"
 ENGINE = "E1"
-FUNCTIONS = ["ioflo.base.building.Builder.build (concrete text: framer, frame, go, let, do, put, inc, copy, timeout, repeat, aux, done, bid)",
+FUNCTIONS = ["ioflo.base.skedding.Skedder.run (sked/ obligations: which ticks a framer with a period runs on)", "ioflo.base.building.Builder.build (concrete text: framer, frame, go, let, do, put, inc, copy, timeout, repeat, aux, done, bid)",
              "ioflo.base.framing.Framer.makeRunner/segue/recur/enter/exit", "ioflo.base.framing.Frame.*", "ioflo.base.acting.Transiter.action",
              "ioflo.base.needing.Need* (symbolic comparisons)", "ioflo.base.poking.Poke*/Inc*/Copy* actions", "ioflo.base.wanting.WantStop.action"]
 ASSUMPTIONS = [
@@ -118,8 +118,99 @@ def h(sym, n, parent, items_per_frame, guards, ticks, item0=None, menu=None):
     return True
 
 
+def h_sked(sym, parent, ticks, period, tick, menu):
+    """the same comparison with the framer run by the real Skedder: the framer has a period that is not a multiple
+    of the scheduler tick (integer time: tick `tick`, period `period`), so WHICH ticks it runs on is part of what is
+    compared.  Reference schedule (documented rule): due times 0, P, 2P, ...; run at the first tick whose time has
+    reached the due time; the next due time is the previous due time plus P."""
+    from ioflo.base import skedding
+    from engine.flogen import LOG
+    n = len(parent)
+    prog = draw(sym, n, parent, 1, False, None, menu)
+    prog.framers[0].period = period
+    text = flogen.emit(prog)
+    with flogen.notrace(sym):
+        houses = flogen.build_text(text)
+        house = houses[0]
+        flogen.add_transit_recorders(house)
+    store = house.store
+    shares = dict((s_, store.create(s_)) for s_ in prog.shares)
+    env = {}
+    for s_, v in prog.state.items():
+        shares[s_] = store.create(s_)
+        shares[s_].value = v
+        env[s_] = v
+    world = floref.World(prog, env)
+    rm = world.framers["m"]
+    main = [f for f in house.framers if f.name == "m"][0]
+    segs = []          # per tick: (stamp, real log, real obs)
+    state = {"k": -1}
+
+    def close():
+        if state["k"] >= 0:
+            segs.append((state["k"] * tick, list(LOG), flostep.observe_real(house, main, prog),
+                         dict((s_, shares[s_].value) for s_ in prog.state)))
+
+    inputs = []
+
+    def changeStamp(stamp):
+        close()
+        state["k"] += 1
+        if state["k"] >= ticks:
+            raise KeyboardInterrupt()
+        store.stamp = stamp
+        store.timeShr.value = stamp
+        del LOG[:]
+        vals = {}
+        for s_ in prog.shares:
+            v = 1 if state["k"] == 0 else sym.int("t%d_%s" % (state["k"], s_), 0, 1)
+            shares[s_].value = v
+            vals[s_] = v
+        inputs.append(vals)
+    store.changeStamp = changeStamp
+    sk = skedding.Skedder(name="s", period=float(tick), houses=houses)
+    sk.period = tick
+    sk.stamp = 0
+    sk.run()
+    sym.check(len(segs) == ticks, "C07/harness/ticks", lambda: "%d" % len(segs))
+    due = 0
+    desire = START
+    for k, (stamp, rlog, robs, rstore) in enumerate(segs):
+        env.update(inputs[k])
+        del world.log[:]
+        if due <= stamp:
+            world.now = stamp
+            world.send(rm, desire)
+            desire = rm.desire
+            due = due + period
+            sym.cover("framer-ran")
+        else:
+            sym.cover("framer-not-due")
+        flog = list(world.log)
+        fobs = flostep.observe_ref(world)
+        sym.check(bool(rlog) == bool(flog) or rlog == flog, "C07/sked/framer-ran-on-a-tick-it-is-not-due-or-missed-a-due-tick",
+                  lambda: "tick %d (time %s) period %s\nreal %s\nref  %s\n%s" % (k, stamp, period, rlog, flog, text))
+        sym.check(rlog == flog, "C07/action-sequence-differs-from-reference", lambda: "tick %d\nreal %s\nref  %s\n%s" % (k, rlog, flog, text))
+        r, f = robs["m"], fobs["m"]
+        sym.check(r["actives"] == f["actives"] and r["status"] == f["status"], "C07/active-outline-differs-from-reference",
+                  lambda: "tick %d real %s/%s ref %s/%s\n%s" % (k, r["actives"], r["status"], f["actives"], f["status"], text))
+        if r["status"] in (1, 2):
+            sym.check(r["elapsed"] == f["elapsed"] and r["recurred"] == f["recurred"], "C07/clocks-differ-from-reference",
+                      lambda: "tick %d elapsed %s/%s recurred %s/%s\n%s" % (k, r["elapsed"], f["elapsed"], r["recurred"], f["recurred"], text))
+        for s_, v in rstore.items():
+            sym.check(v == env[s_], "C07/store-value-differs-from-reference", lambda: "tick %d share %s real %s ref %s\n%s" % (k, s_, v, env[s_], text))
+    return True
+
+
 def obligations(tier):
     out = []
+    small_s = ["none", "go-x", "inc-recur", "go-cnt", "go-elapsed", "go-recurred"]
+    for (period, tick) in ([(3, 2)] if tier == "quick" else [(3, 2), (5, 2), (4, 3), (2, 2)]):
+        out.append(Ob("sked/N2-chain-period%d-tick%d" % (period, tick), h_sked,
+                      dict(parent=[-1, 0], ticks=6 if tier == "quick" else 8, period=period, tick=tick, menu=small_s), budget=900,
+                      covers=["framer-ran", "framer-not-due"] if period != tick else ["framer-ran"],
+                      bounds=dict(frames=2, forest=[-1, 0], menu=small_s, scheduler_ticks=6 if tier == "quick" else 8, period=period, tick=tick,
+                                  inputs="[0,1]", driver="real Skedder.run")))
     if tier == "quick":
         cfgs = [(2, 1, True, 2, True)]
         forests = {2: [[-1, 0], [-1, -1]]}
